@@ -54,6 +54,10 @@ func HarnessC04Dialogue() {
 	s := hxNewSrv(caps)
 	s.monitor = true
 	s.maxDev = svParam("maxdev", 2)
+	if svParam("ml", 1) == 1 {
+		// a conforming server may answer any command with a multi-line reply
+		s.multiline = svPick("multiline-replies", 2) == 1
+	}
 	var opts []Option
 	dsn := svPick("dsn", svParam("dsnmodes", 3))
 	switch dsn {
